@@ -13,7 +13,7 @@ from common import Str, sx
 from props.c07 import root_dict
 
 ID = 'C03'
-LEAN_MODULES = ['Cellml.Props.C03', 'Cellml.Tie.UnitDefsMake', 'Cellml.Tie.UnitDefsDen', 'Cellml.Tie.UnitDefs']
+LEAN_MODULES = ['Cellml.Props.C03', 'Cellml.Tie.UnitDefsMake', 'Cellml.Tie.UnitDefsDen', 'Cellml.Tie.UnitDefs', 'Cellml.Tie.GenBWhile', 'Cellml.Tie.GenBUnitDefs', 'Cellml.Tie.GenBCompose', 'Cellml.Props.C03Gen']
 N = {'quick': 400, 'thorough': 10000}
 RULE = ('random sets of <units> definitions written as CellML 1.0 documents and loaded through cellmlmanip.load_model '
         'in 3 random orders each: 3-12 definitions, chains of user units to depth 8, exponents in '
